@@ -154,3 +154,14 @@ func DiagArg(i, j int) string     { return "" }
 
 // NativeFuncs are executed natively by the symbolic executor (concrete judges and oracles).
 var NativeFuncs = map[string]interface{}{}
+
+// Bytes returns an arbitrary ASCII string (bytes 1..127) of at most maxLen bytes. Under the
+// symbolic executor its length is case-split and every byte is a symbolic integer.
+func Bytes(name string, maxLen int) string {
+	n := Int(name+".len", 0, maxLen)
+	b := make([]byte, n)
+	for i := range b {
+		b[i] = byte(Int(fmt.Sprintf("%s[%d]", name, i), 1, 127))
+	}
+	return string(b)
+}
